@@ -920,3 +920,71 @@ def rf135(run):
     if n < 2:
         raise F.AnalysisBroken('RF135: only %d calls of _reduce_encode_buf outside the function itself' % n)
     return n
+
+
+# ---------------------------------------------------------------------------------------------
+# RF146: a failure recorded by the decoder is never overwritten
+# ---------------------------------------------------------------------------------------------
+
+def rf146(run):
+    rule = 'RF146'
+    run.rule(rule, 'mir-reduce.h decoder: reduce_decode_start stores the verdict of the "MIR" prefix test in a field; that verdict must reach '
+                   'reduce_decode_finish.  Every other assignment to the same field in the decoder stores the failure value, or is guarded '
+                   'by a test of the field; and reduce_decode_finish reads it.  (The check hash covers the decoded data only, so a stream '
+                   'damaged in its first three bytes is reported by this flag alone.)')
+    tu = run.tu('mir')
+    st = tu.func('reduce_decode_start')
+    fin = tu.func('reduce_decode_finish')
+    run.functions_analysed.update({('mir', st.name), ('mir', fin.name)})
+    asg = [x for x in st.walk() if x['k'] == 'BinaryOperator' and x['op'] == '=' and any(y['k'] == 'CallExpr' and y.get('callee') == 'memcmp' for y in F.walk(x['c'][1]))]
+    if not asg:
+        raise F.AnalysisBroken('reduce_decode_start: the prefix test was not found')
+    lhs = F.strip(asg[0]['c'][0])
+    if lhs['k'] != 'MemberExpr':
+        raise F.AnalysisBroken('reduce_decode_start: the prefix verdict is not stored in a field')
+    field = lhs['n']
+    rhs = F.strip(asg[0]['c'][1])
+    fail_vals = {0}
+    fail_src = None
+    if rhs['k'] == 'ConditionalOperator':
+        fv = F.const_value(F.strip(rhs['c'][2]))
+        if fv is None:
+            raise F.AnalysisBroken('reduce_decode_start: failure value of the prefix verdict not constant')
+        fail_vals = {fv}
+        fail_src = F.src(F.strip(rhs['c'][2])).replace(' ', '')
+    from rf_proto import dominating_conditions
+    n = 0
+    for g in tu.func_list:
+        if g.body is None or not g.file.endswith('mir-reduce.h') or not g.name.startswith(('reduce_decode', '_reduce_decode')):
+            continue
+        for x in g.walk():
+            if x['k'] == 'BinaryOperator' and x['op'] == '=' and x is not asg[0]:
+                l = F.strip(x['c'][0])
+                if l['k'] == 'MemberExpr' and l['n'] == field:
+                    v = F.const_value(F.strip(x['c'][1]))
+                    ok = v in fail_vals
+                    if not ok:
+                        conds = dominating_conditions(g.cfg, g.cfg.block_of(x), selective=True)
+                        for c, t in conds:
+                            cc = c.replace(' ', '').strip('()')
+                            if fail_src is not None:
+                                # `field != FAIL` taken, or `field == FAIL` not taken
+                                if cc.endswith('%s!=%s' % (field, fail_src)) and t or cc.endswith('%s==%s' % (field, fail_src)) and not t:
+                                    ok = True
+                            else:
+                                if cc.endswith(field) and not cc.startswith('!') and t or (cc.startswith('!') and cc.endswith(field) and not t):
+                                    ok = True
+                    n += 1
+                    run.functions_analysed.add(('mir', g.name))
+                    run.ob(rule, (g.name, x['l']), ok, {'site': '%s:%d %s' % (g.relfile(), x['l'], g.name), 'assignment': F.src(x)[:60], 'failure value': sorted(fail_vals)})
+                    if not ok:
+                        run.violation(rule, g, 'failure verdict overwritten', '`%s` in %s overwrites the field that holds the verdict of the prefix test '
+                                      'with a non-failure value without looking at it: a stream whose first bytes are damaged is decoded to the '
+                                      'end and accepted (the check hash does not cover the prefix)' % (F.src(x)[:60], g.name), line=x['l'])
+    reads = any(y['k'] == 'MemberExpr' and y['n'] == field for y in fin.walk())
+    n += 1
+    run.ob(rule, ('finish',), reads, {'reduce_decode_finish reads the field': reads, 'field': field})
+    if not reads:
+        run.violation(rule, fin, 'prefix verdict not consulted', 'reduce_decode_finish does not read `%s`, the field in which reduce_decode_start '
+                      'stores the verdict of the prefix test' % field, line=fin.line)
+    return n
